@@ -91,6 +91,8 @@ func awsInstanceBody() *schema.BodySchema {
 			"tags":            {IsOptional: true, Constraint: schema.AnyExpression{OfType: cty.Map(cty.String)}, Description: md("tags-desc")},
 			"count_hint":      {IsOptional: true, IsDeprecated: true, Constraint: schema.AnyExpression{OfType: cty.Number}, Description: md("count_hint-desc")},
 			"secret":          {IsOptional: true, IsSensitive: true, IsWriteOnly: true, Constraint: schema.AnyExpression{OfType: cty.String}, Description: md("secret-desc")},
+			"token":           {IsOptional: true, IsSensitive: true, IsWriteOnly: true, Constraint: schema.AnyExpression{OfType: cty.String}, Description: md("token-desc")},
+			"passphrase":      {IsOptional: true, IsWriteOnly: true, Constraint: schema.AnyExpression{OfType: cty.String}, Description: md("passphrase-desc")},
 			"security_groups": {IsOptional: true, IsComputed: true, Constraint: schema.AnyExpression{OfType: cty.Set(cty.String)}, Description: md("sg-desc")},
 			"monitoring":      {IsOptional: true, Constraint: schema.AnyExpression{OfType: cty.Bool}, Description: md("monitoring-desc")},
 			"cpu": {IsOptional: true, Description: md("cpu-desc"), Constraint: schema.AnyExpression{OfType: cty.Object(map[string]cty.Type{
